@@ -3,6 +3,7 @@ import json
 import random
 
 import gens
+import phases
 
 
 def own_facet(plan, rec):
@@ -379,5 +380,45 @@ PLANS["C15"] = {
     "assumptions": [
         "the scripted writer covers: fails from call k on, fails only at call k, partial write (half accepted) with error at call k, for every k up to the fault-free call count",
         "prefix test by bytes.HasPrefix against the same wrapper's fault-free output",
+    ],
+}
+
+
+PLANS["C17"] = {
+    "facets": "none",
+    "own": ["res.decor", "out.text", "out.errtext", "res.dec"],
+    "phases": [phases.registry_phase],
+    "random": [{"gen": gens.gen_failclosed, "run_opts": {"every": True}}],
+    "min_scenarios": {"quick": 300, "thorough": 3000},
+    "assumptions": [
+        "the order of registry operations is taken from the verif-build hook inside the critical section (sequence number written under the registry's own lock)",
+        "data races are detected by Go's race detector on the very executions that are trace-validated",
+        "the mutual-exclusion probe uses a 40 ms timer only in the direction 'may miss': on correct code the second operation blocks until released",
+    ],
+}
+
+PLANS["C16"] = {
+    "facets": "none",
+    "own": ["res.solo", "out.text", "out.csv", "out.html", "out.json", "out.md", "out.errtext"],
+    "phases": [phases.conc_phase],
+    "min_scenarios": {"quick": 200, "thorough": 3000},
+    "assumptions": [
+        "data races are detected by Go's race detector on the executions that are trace-validated; a report counts only if it has a frame inside the library",
+        "each goroutine owns its tables and wrappers; html wrappers with a row-class generator are used by one goroutine only (documented restriction)",
+    ],
+}
+
+PLANS["C19"] = {
+    "facets": "none",
+    "own": ["res.auto", "res.styles"],
+    "mc": [{"module": "MCAuto",
+            "quick": dict(RegNames=Raw('{"mine", "a.b", "CSV", "texttable"}'), MaxReg=2),
+            "thorough": dict(RegNames=Raw('{"mine", "Mine", "a.b", "csv", "CSV", "texttable", "a.b.c"}'), MaxReg=2)}],
+    "random": [{"gen": gens.gen_auto}],
+    "min_scenarios": {"quick": 500, "thorough": 5000},
+    "assumptions": [
+        "the registry is process-global and only grows: every scenario that registers names runs in a process of its own; the built-in names and the default decoration are logged inputs of each scenario",
+        "registering the empty decoration value under a name is not generated (it is the documented 'no such decoration' sentinel)",
+        "for a decoration name followed by sections that is not registered as a whole the statement is silent: only consistency (unknown fails, known renders) is required",
     ],
 }
